@@ -145,6 +145,8 @@ def validate_real(rep: Report, traces: list[dict], selfcheck: bool = True):
             )
     rep.extra["real_runs"] = methods
     for name, m in methods.items():
+        if rep.violations:
+            break  # stalled / violating runs are short; coverage is only required of clean runs
         if m["handovers"] == 0 or m["nested"] == 0 or m["queries"] == 0:
             raise tlc.MachineryError(f"real runs with {name} never exercised handover/nesting/queries: {m}")
 
